@@ -339,5 +339,7 @@ func main() {
 		h := hs[i]
 		cases[i] = func() { run(pool, h) }
 	}
+	// logins racing with each other and with grant additions (lrace.go)
+	cases = append(cases, lraceCases(r, pool)...)
 	ax.RunCases(8, cases)
 }
